@@ -291,6 +291,21 @@ def laws(v, names, seq, rec, one, homog):
                 if not miss and not same_orig(tl[i], x):
                     rec.violation("tolist", "original-values", one, f"tolist {tl!r} for {names}")
                     return None
+    elif v.is_object() or v.is_datetime():
+        # a sequence of several families that was NOT coerced to numbers or strings (an object vector, or - dates next
+        # to datetimes - a datetime vector): tolist still returns the values that were given
+        for i, x in enumerate(seq):
+            if fl[i] or is_missing_scalar(x):
+                continue
+            t = tl[i]
+            if isinstance(x, np.datetime64) and np.isnat(x):
+                continue
+            if isinstance(x, datetime.datetime) and isinstance(t, datetime.date) and not isinstance(t, datetime.datetime):
+                rec.violation("tolist", "original-values", one, f"tolist {tl!r} for {names}: the time of day of position {i} is gone")
+                return None
+            if v.is_object() and not (t is x or same_orig(t, x)):
+                rec.violation("tolist", "original-values", one, f"tolist {tl!r} for {names}: position {i} was {x!r}")
+                return None
     # 2. rebuild from tolist + dtype (equal() is defined by ==, so a value unequal to itself is outside laws 2 and 3)
     aloof = any(x is ALOOF for x in seq)
     try:
